@@ -19,17 +19,21 @@ package circularQueue
 //@ requires[C18] max >= 1
 //@ ensures[C18] result != nil && fresh(result) && QInv(result) && result.NextIndex == 0 && len(result.Items) == 0 && result.MaxItems == max
 
-// Keys of the map in ascending order: Go's map iteration visits every key once and
-// sort.Ints sorts (assumed).  For a domain that is an interval the enumeration is the
-// interval itself (the counting argument behind this corollary is not machine checked;
-// the oracle checks it on the real function for all small domains: bounded).
+// Keys of the map in ascending order, proved from the semantics of a range over a map that
+// the loop does not modify (len(m) keys, each in the map, none twice: DESIGN.md) and the
+// assumed contract of sort.Ints (sorted, a permutation).
 //@ func (*CircularQueue).getKeysInAscendingOrder
-//@ assume-contract
-//@ ensures len(result) == len(cb.Items) && fresh(result)
+//@ sequential
+//@ requires cb != nil
+//@ ensures len(result) == len(cb.Items) && (len(result) == 0 || fresh(result))
 //@ ensures forall(j, 0, len(result), has(cb.Items, result[j]))
 //@ ensures forall(j, 0, len(result) - 1, result[j] < result[j+1])
 //@ ghostparam lo Int
-//@ ensures forallint(k, has(cb.Items, k) == (lo <= k && k < lo + len(cb.Items))) ==> forall(j, 0, len(result), result[j] == lo + j)
+//@ ensures forallint(k, has(cb.Items, k) == (lo <= k && k < lo + len(cb.Items))) ==> AscB(contents(result), offof(result), len(result), lo) && forall(j, 0, len(result), result[j] == lo + j)
+//@ loop 1
+//@ invariant len(keys) == rangepos(1) && (arrof(keys) == 0 || fresh(keys))
+//@ decreases rangelen(1) - rangepos(1)
+//@ invariant forall(j, 0, len(keys), keys[j] == rangekey(1, j))
 
 //@ func (*CircularQueue).Add
 //@ ghostparam hist (Array Int S_github_com_goblimey_go_ntrip_rtcm_handler_Message)
